@@ -4,6 +4,7 @@ import (
 	"fmt"
 	"math"
 	"strings"
+	"sync"
 	"time"
 
 	"aaverif/internal/plan"
@@ -313,6 +314,36 @@ func checkC14(e *Env) {
 			}
 		}
 	})
+	// long runs of ordinary generating calls on the default source with mixed sizes and
+	// languages in one process (pools and buffers that are refilled every so many bytes)
+	longRuns := 0
+	var mu sync.Mutex
+	parallel(e.pick(4, 16), e.Workers, func(k int) {
+		r := rng.New(e.Seed, "C14-long-"+itoa(k))
+		var ops []plan.Op
+		n := e.pick(1500, 20000)
+		for i := 0; i < n; i++ {
+			cnt := ref.WordCounts[r.Intn(5)]
+			if k%2 == 1 && i%50 != 0 {
+				cnt = ref.WordCounts[k%5] // mostly one size, now and then another
+			}
+			ops = append(ops, plan.Op{I: i, Fn: "new", L: int64(r.Intn(ref.NLang)), N: int64(cnt)})
+		}
+		res, died := e.RunProc(drv, ops, nil, 0)
+		for i := range res {
+			if res[i].Panic != "" {
+				e.Violate(&Violation{What: fmt.Sprintf("NewMnemonic(%d, %s) on the default source panicked as call %d of a run of such calls in one process: %s", ops[i].N, ref.Names[ops[i].L], i, oneLine(res[i].Panic, 300)), Ops: ops[:i+1], Expected: "returns normally", Observed: res[i], Detail: historyNote})
+				return
+			}
+		}
+		if died != "" {
+			e.Violate(&Violation{What: fmt.Sprintf("the process died during call %d of a run of default-source NewMnemonic calls: %s", len(res), oneLine(died, 300)), Ops: ops[:min(len(res)+1, len(ops))]})
+			return
+		}
+		mu.Lock()
+		longRuns += len(res)
+		mu.Unlock()
+	})
 	concCalls := e.concurrentSmoke(drv, "C14", append(e.smokePool("C14", "chk"), e.smokePool("C14", "str")...), e.pick(2, 12), e.pick(200, 1000), nil)
 	if e.Violations() == 0 && stats.Ops < 1000 {
 		fatalInconclusive("C14: only %d calls completed", stats.Ops)
@@ -320,7 +351,8 @@ func checkC14(e *Env) {
 	e.WriteEvidence("exploration", map[string]any{
 		"evaluations":         stats.Ops,
 		"distinct_nontrivial": dist.Len(),
-		"calls_inside_histories_and_under_concurrency": histCalls + concCalls,
+		"calls_inside_histories_and_under_concurrency":     histCalls + concCalls,
+		"default_source_calls_in_long_runs_of_one_process": longRuns,
 		"rule":                        "cases are calls of every exported function and method with hostile arguments: Language values {MinInt64, MinInt32, -2^31-1, -10, -1, 0..9, 10, 11, 255, 256, MaxInt32, 2^32, MaxInt64, seeded random} for every function; entropy nil, every length 0..70 and up to the size cap; word counts -40..60 and the extremes of int with default, working, failing, stuttering ((0,nil) x32) and short sources; strings: empty, spaces, one huge token, up to 10^6 tokens, 24 list words with long tails, every shape of invalid UTF-8, NUL, long runs of combining marks, U+FDFA, Hangul, unassigned code points and non-characters, and seeded splices, up to 1 MiB (thorough 16 MiB), each sent to CheckMnemonic, IsMnemonicValid and MnemonicToSeed (as mnemonic, as passphrase, as both); each call runs in a child that announces it first, so a panic, a process death or a call that consumes more than 10 s + 8 s/MiB of CPU is attributed to it; non-trivial = every call; distinct by (function, shape, language)",
 		"samples":                     smp.List(),
 		"calls_per_function":          perFn.Map(),
